@@ -4,6 +4,7 @@
 //! Usage: `cvh <mode> <jobs.ndjson> <out.ndjson>`; each input line is one job, each output
 //! line the observation for that job. Modes are documented in the respective modules.
 
+mod inferops;
 mod inplace;
 mod lowerq;
 mod solver;
@@ -47,6 +48,7 @@ fn main() {
             "inplace" => inplace::run_job(&line),
             "lower" => lowerq::run_job(&line),
             "terms" => termops::run_job(&line),
+            "infer" => inferops::run_job(&line),
             _ => {
                 eprintln!("unknown mode {}", mode);
                 std::process::exit(2);
